@@ -26,24 +26,24 @@ type violationOut struct {
 }
 
 type out struct {
-	Prop        string            `json:"prop"`
-	Profile     string            `json:"profile"`
-	Seed        uint64            `json:"seed"`
-	Shard       int               `json:"shard"`
-	Cases       int               `json:"cases"`
-	Ops         int64             `json:"ops"`
-	Hashes      map[string]bool   `json:"hashes"` // hash -> nontrivial
-	Violations  []violationOut    `json:"violations"`
-	Samples     [][]string        `json:"samples"`
-	Counters    map[string]int64  `json:"counters"`
-	Misuse      map[string]int64  `json:"misuse,omitempty"`
-	Methods     map[string]int64  `json:"methods,omitempty"`
-	Digests     map[string]string `json:"digests,omitempty"` // case -> final digest
-	DistinctMasks int             `json:"distinct_masks"`
-	DistinctFilters int           `json:"distinct_filters"`
-	WallS       float64           `json:"wall_s"`
-	Harness     int               `json:"harness_panics"`
-	Scenarios   map[string][]string `json:"scenarios"` // directed scenario -> failure messages (empty = held)
+	Prop            string              `json:"prop"`
+	Profile         string              `json:"profile"`
+	Seed            uint64              `json:"seed"`
+	Shard           int                 `json:"shard"`
+	Cases           int                 `json:"cases"`
+	Ops             int64               `json:"ops"`
+	Hashes          map[string]bool     `json:"hashes"` // hash -> nontrivial
+	Violations      []violationOut      `json:"violations"`
+	Samples         [][]string          `json:"samples"`
+	Counters        map[string]int64    `json:"counters"`
+	Misuse          map[string]int64    `json:"misuse,omitempty"`
+	Methods         map[string]int64    `json:"methods,omitempty"`
+	Digests         map[string]string   `json:"digests,omitempty"` // case -> final digest
+	DistinctMasks   int                 `json:"distinct_masks"`
+	DistinctFilters int                 `json:"distinct_filters"`
+	WallS           float64             `json:"wall_s"`
+	Harness         int                 `json:"harness_panics"`
+	Scenarios       map[string][]string `json:"scenarios"` // directed scenario -> failure messages (empty = held)
 }
 
 func main() {
